@@ -133,7 +133,7 @@ def consteval(P, F, e, bind, canon):
             return bind[s]
         if k == 'sub':
             b = F.ex[F.strip_casts(c[0])]
-            if b['k'] == 'ref' and b['decl']['kind'] == 'global' and b['decl'].get('const'):
+            if b['k'] == 'ref' and b['decl']['kind'] == 'global' and (b['decl'].get('const') or str(b.get('t', '')).startswith('const ')):
                 idx = consteval(P, F, c[1], bind, canon)
                 for g in P.globals.get(b['decl']['name'], []):
                     init = g.get('init')
@@ -299,7 +299,9 @@ def canon_at(F, e, sk, at):
         if nd['k'] == 'ref' and nd['decl'].get('kind') == 'var' and nd['decl'].get('id') not in env:
             d = alias_of_var(F, nd['decl']['id'], at)
             if d is not None:
-                env[nd['decl']['id']] = sk.canon(F, d, {})
+                cs = sk.canon(F, d, {})
+                if '.' in cs:           # a copy of a field; a copy of another local stays a wild card
+                    env[nd['decl']['id']] = cs
     return sk.canon(F, e, env)
 
 
